@@ -1429,6 +1429,34 @@ theorem run_deterministic_function :
   ⟨fun ops t => (runSt ops t).2, fun ops before after t =>
     ⟨order_independent_position ops before after t, by rw [order_independent]⟩⟩
 
+/-- **One operation through the dispatcher is `post_proc_data ∘ do_op ∘ prep_data`** (on a table with unique
+labels; any other table is outside the model) -/
+theorem run_single_is_post_op_prep (o : Op) (t : Table) (h : (header t).Nodup) :
+    (runSt [o] t).2 = (match (opImpl o (prep t)).2 with | .ok t1 => .ok (post t1) | .error e => .error e) := by
+  unfold runSt runWith
+  simp only [h, not_true_eq_false, if_false]
+  cases hh : opImpl o (prep t) with
+  | mk o' r => cases r <;> simp [runWith]
+
+/-- **`run_operations` on a list is the composition of its operations**: it gives exactly what running the
+operations one at a time, each through a dispatcher of its own (so each wrapped in its own n/a → NaN and
+NaN → n/a conversions), gives — table or exception — for every list and every table. -/
+theorem run_operations_is_composition : ∀ (ops : List Op) (t : Table), (runSt ops t).2 = runOneByOne ops t
+  | [], t => rfl
+  | o :: os, t => by
+    have ih := run_operations_is_composition os
+    unfold runSt at ih ⊢
+    unfold runOneByOne runSt
+    unfold runWith
+    by_cases h : (header t).Nodup
+    · simp only [h, not_true_eq_false, if_false]
+      cases hh : opImpl o (prep t) with
+      | mk o' r =>
+        cases r with
+        | error e => simp
+        | ok t1 => simp [runWith, ih (post t1)]
+    · simp [h]
+
 /-- **A validated list runs to completion** on every table that has, at each step, the columns the step names
 (with unique labels) holding values of the expected kind (`kindOk`: numeric onset/duration and source columns
 for split_rows and merge_consecutive with set_durations; convertible integer sources and, unless ignore_missing,
@@ -1523,6 +1551,22 @@ when it comes first, and raises ValueError (column `c` "missing") when it comes 
 theorem reorder_old_order_counterexample :
     (runManyWith opImplOld [opBA] [tabAB, tabABC]).2[0]? = some (.ok [(['b'], [.str ['x']]), (['a'], [.int 1])])
     ∧ (runManyWith opImplOld [opBA] [tabABC, tabAB]).2[1]? = some (.error (.raised .ValueError)) := by decide
+
+/-! ### converting once around the whole list is not the same (seeded change C17-c) -/
+
+def tabNa : Table := [(['c'], [.str ['1'], .str ['2'], .str ['7'], .str ['1']])]
+def opsNa : List Op :=
+  [.remapColumns [['c']] [['k']] [[.str ['1'], .str ['g']], [.str ['2'], .str ['s']]] true none,
+   .factorColumn ['k'] none none]
+def resHeader : Except OpErr Table → Option (List Str) | .ok t => some (header t) | .error _ => none
+
+/-- remap_columns writes the text 'n/a' for the unmapped key `7`; `run_operations` hands it to factor_column as
+NaN (factor `k.nan`), a dispatcher that converts only once around the list hands it over as text (factor `k.n/a`) -/
+theorem hoisted_prep_counterexample :
+    resHeader (runSt opsNa tabNa).2 = some [['c'], ['k'], "k.g".toList, "k.s".toList, "k.nan".toList]
+    ∧ resHeader (runHoisted opsNa tabNa) = some [['c'], ['k'], "k.g".toList, "k.s".toList, "k.n/a".toList]
+    ∧ (runSt opsNa tabNa).2 = runOneByOne opsNa tabNa
+    ∧ runHoisted opsNa tabNa ≠ runOneByOne opsNa tabNa := by decide
 
 /-! ### non-vacuity -/
 
